@@ -217,16 +217,30 @@ pub fn rand_b64(r: &mut Rng) -> String {
     }
 }
 
+/// an integer at or next to a limit of the type this VR reads (inside what a JSON integer of serde_json can hold)
+fn near_boundary(r: &mut Rng, vr: &str) -> i128 {
+    let k = match vr { "SS" => IK::I16, "US" | "OW" => IK::U16, "SL" => IK::I32, "OB" => IK::U8, "UL" | "OL" => IK::U32, "SV" => IK::I64, _ => IK::U64 };
+    let (lo, hi) = k.range();
+    let z = match r.below(10) { 0 | 1 => lo - 1, 2 => lo, 3 | 4 => hi, 5 | 6 => hi + 1, 7 => hi - 1, _ => { let k2 = *r.pick(&IK::ALL); rand_int(r, k2) } };
+    z.max(i64::MIN as i128).min(u64::MAX as i128)
+}
+
 /// value array items of the type this VR reads, mostly
-fn rand_items_for(r: &mut Rng, vr: &str) -> Vec<J> {
+pub fn rand_items_for(r: &mut Rng, vr: &str) -> Vec<J> {
     let n = count(r);
     (0..n).map(|_| {
         if r.chance(1, 5) { return rand_json_item(r); }
         match vr {
-            "SS" | "US" | "SL" | "UL" | "SV" | "UV" | "OB" | "OW" | "OL" | "OV" => match r.below(5) {
+            // integers only
+            "SS" | "US" | "SL" | "OB" | "OW" => match r.below(12) {
                 0 => J::Str(r.pick(NUMTEXT).to_string()),
-                1 => { let k = *r.pick(&IK::ALL); J::Str(rand_int(r, k).to_string()) }
-                _ => { let k = *r.pick(&IK::ALL); J::Int(rand_int(r, k)) }
+                _ => J::Int(near_boundary(r, vr)),
+            },
+            // integers or their text
+            "UL" | "SV" | "UV" | "OL" | "OV" => match r.below(5) {
+                0 => J::Str(r.pick(NUMTEXT).to_string()),
+                1 => J::Str(near_boundary(r, vr).to_string()),
+                _ => J::Int(near_boundary(r, vr)),
             },
             "FL" | "FD" | "OF" | "OD" | "DS" | "IS" => match r.below(4) { 0 => J::Str(r.pick(NUMTEXT).to_string()), 1 => { let k = *r.pick(&IK::ALL); J::Int(rand_int(r, k)) } _ => loop { let j = rand_json_item(r); if matches!(j, J::Float(..)) { break j } } },
             "PN" => if r.chance(1, 6) { J::Arr((0..r.below(5)).map(|_| if r.chance(1, 3) { J::Null } else { J::Str(r.pick(NAMES).to_string()) }).collect()) } else { J::Obj(rand_person_members(r)) },
@@ -316,4 +330,13 @@ pub fn mutate(r: &mut Rng, j: &mut J) {
             }
         }
     }
+}
+
+/// {"<tag>": {"vr": vr, "Value": [items typed for the VR]}}: mostly one or two items so that each boundary decides alone
+pub fn typed_element(r: &mut Rng, vr: &str) -> J {
+    let mut items = rand_items_for(r, vr);
+    if r.chance(2, 3) { items.truncate(1 + r.below(2) as usize); }
+    let mut m = vec![("vr".to_string(), J::Str(vr.to_string())), ("Value".to_string(), J::Arr(items))];
+    if r.chance(1, 6) { m.swap(0, 1); }
+    J::Obj(vec![(format!("{:08X}", r.next() as u32), J::Obj(m))])
 }
